@@ -18,7 +18,9 @@ import (
 	"github.com/sharedcode/sop/ai"
 	aidb "github.com/sharedcode/sop/ai/database"
 	"github.com/sharedcode/sop/ai/vector"
+	"github.com/sharedcode/sop/btree"
 	_ "github.com/sharedcode/sop/cache"
+	"github.com/sharedcode/sop/infs"
 	"pgregory.net/rapid"
 
 	"verif/harness/stats"
@@ -50,6 +52,12 @@ const slugBuffer = "ingestion-buffer-get-fails-after-consolidate"
 // tombstone, so an item deleted while still in the ingestion buffer comes back with an empty vector,
 // or Optimize panics when the tombstoned entry is the first staged key.
 const slugStagedDelete = "consolidate-ignores-staged-tombstones"
+
+// slugBigData: core B-tree defect reached through ContentSize=BigData (values actively persisted and
+// "unfetched" when the cursor moves): the item action tracker keeps a pointer into the node's slot
+// array; after an insert shifts the slots a second read of the same item in the same transaction
+// skips the fetch and returns the zero value, so Get fails with "unexpected end of JSON input".
+const slugBigData = "bigdata-content-second-read-in-transaction-returns-empty"
 
 // ---------------------------------------------------------------------------------------------
 
@@ -107,7 +115,8 @@ type itemJ struct {
 }
 
 // op is one step of a history. K: U upsert, B batch, D delete, G get, Q query, C count, O optimize,
-// R commit+reopen, X switch the ingestion buffer off for later sessions.
+// R commit+reopen, X switch the ingestion buffer off for later sessions, L leave the lookup store of an
+// interrupted earlier Optimize behind (as the repository's TestOptimize_GracePeriod does).
 type op struct {
 	K     string    `json:"k"`
 	ID    string    `json:"id,omitempty"`
@@ -151,11 +160,12 @@ type machine struct {
 	vecTrusted bool
 
 	// classification
-	mutSinceOpt  bool // a delete of a live id or a re-upsert since the last Optimize (or start)
-	tombSinceOpt bool // a delete of a live id since the last Optimize
-	nOptimize    int
-	nontrivial   bool
-	labels       map[string]bool
+	mutSinceOpt   bool // a delete of a live id or a re-upsert since the last Optimize (or start)
+	tombSinceOpt  bool // a delete of a live id since the last Optimize
+	nOptimize     int
+	staleLeftover bool
+	nontrivial    bool
+	labels        map[string]bool
 }
 
 func newMachine(cc caseCfg, dir string) *machine {
@@ -420,6 +430,26 @@ func (m *machine) exec(t tb, o op) {
 		m.label("reopen")
 	case "X":
 		m.cfg.EnableIngestionBuffer = false
+	case "L":
+		// The artifact of an Optimize that died in phase 1: the next version's lookup store exists.
+		// The next Optimize must remove it (its files are aged past the grace period first) and succeed.
+		m.commit(t)
+		tx, err := m.db.BeginTransaction(m.ctx, sop.ForWriting)
+		if err != nil {
+			m.fail(t, "BeginTransaction: %v", err)
+		}
+		name := fmt.Sprintf("%s/lku_%d", m.domain, m.nOptimize+1)
+		b3, err := infs.NewBtree[int, string](m.ctx, sop.ConfigureStore(name, true, btree.DefaultSlotLength, "Lookup", sop.SmallData, ""), tx, func(a, b int) int { return a - b })
+		if err != nil {
+			m.fail(t, "creating the stale lookup store %s: %v", name, err)
+		}
+		if _, err := b3.Add(m.ctx, 0, "k00"); err != nil {
+			m.fail(t, "filling the stale lookup store %s: %v", name, err)
+		}
+		if err := tx.Commit(m.ctx); err != nil {
+			m.fail(t, "committing the stale lookup store %s: %v", name, err)
+		}
+		m.staleLeftover = true
 	case "O":
 		m.ensureOpen(t)
 		if m.pending {
@@ -440,6 +470,10 @@ func (m *machine) exec(t tb, o op) {
 		}
 		if m.cfg.EnableIngestionBuffer {
 			m.label("optimizeFromBuffer")
+		}
+		if m.staleLeftover {
+			m.label("optimizeOverStaleLeftover")
+			m.staleLeftover = false
 		}
 		m.ageStoreFiles(t)
 		if err := m.idx.Optimize(m.ctx); err != nil {
@@ -530,9 +564,13 @@ func runScript(t tb, s script, strict bool) *machine {
 	if !strict && s.Cfg.Mode == int(ai.DynamicWithVectorCountTracking) && stats.Known("C33", slugAlias) {
 		m.vecTrusted = false
 	}
-	for _, o := range s.Ops {
-		m.exec(t, o)
-		if o.K == "O" {
+	for i := 0; i < len(s.Ops); i++ {
+		m.exec(t, s.Ops[i])
+		if s.Ops[i].K == "O" {
+			if i+1 < len(s.Ops) && s.Ops[i+1].K == "X" { // same order as the generator: switch, then verify
+				i++
+				m.exec(t, s.Ops[i])
+			}
 			m.afterOptimize(t)
 		}
 	}
@@ -581,6 +619,16 @@ func (g *gen) drawVec(t *rapid.T, what string) []float32 {
 }
 
 func (g *gen) pickID(t *rapid.T) string {
+	// half of the picks go to ids that were stored at some point, so that re-upserts, deletes and
+	// gets of live / deleted ids are frequent even with 30 ids
+	if len(g.m.ever) > 0 && rapid.Bool().Draw(t, "knownID") {
+		known := make([]string, 0, len(g.m.ever))
+		for id := range g.m.ever {
+			known = append(known, id)
+		}
+		sort.Strings(known)
+		return known[rapid.IntRange(0, len(known)-1).Draw(t, "idx")]
+	}
 	return fmt.Sprintf("k%02d", rapid.IntRange(0, g.m.cc.NIDs-1).Draw(t, "id"))
 }
 
@@ -670,6 +718,9 @@ func (g *gen) actOptimize(t *rapid.T) {
 	if len(g.m.ever) == 0 {
 		t.Skip("nothing stored yet")
 	}
+	if rapid.IntRange(0, 5).Draw(t, "staleLeftover") == 0 {
+		g.m.exec(t, op{K: "L"})
+	}
 	g.m.exec(t, op{K: "O"})
 	if g.m.cfg.EnableIngestionBuffer && stats.Known("C33", slugBuffer) {
 		// listed finding: go on the way the repository's own lifecycle test does, i.e. the buffer is
@@ -687,6 +738,10 @@ func runCase(t *rapid.T, rec *stats.Rec) {
 		Mode:    int(rapid.SampledFrom([]ai.UsageMode{ai.Dynamic, ai.DynamicWithVectorCountTracking, ai.BuildOnceQueryMany}).Draw(t, "mode")),
 		Buffer:  rapid.Bool().Draw(t, "buffer"),
 		Content: int(rapid.SampledFrom([]sop.ValueDataSize{sop.SmallData, sop.MediumData, sop.BigData}).Draw(t, "content")),
+	}
+	if cc.Content == int(sop.BigData) && stats.Known("C33", slugBigData) {
+		rec.Exclude("ContentSize=BigData cases, run with MediumData instead (" + slugBigData + ")")
+		cc.Content = int(sop.MediumData)
 	}
 	dir, err := os.MkdirTemp("", "c33-*")
 	if err != nil {
